@@ -3,6 +3,7 @@ import OmplModel.Proofs.SpaceInterpExamplesGeo
 import OmplModel.Generated.RwSets
 import OmplModel.Proofs.SpaceInterpWeights
 import OmplModel.Proofs.SpaceInterpAlias
+import OmplModel.Proofs.SpaceInterpFix61
 /-!
 C07 — property theorems for `StateSpace::interpolate` (model: `Model/SpaceInterp.lean`).
 
@@ -625,6 +626,77 @@ example : interpolate .klein
   klein_interp_reparam_cylinder _ _ _ _ _ _ three_inB.1 three_inB.2
     (by rw [sub_zero, abs_one]; linarith [pi_gt_three])
     (by norm_num) (by norm_num) (by norm_num) (by norm_num)
+
+/-! ## 10. the proposed F61 repair (`so2InterpFix`, `interpolateFix61`); discrete exact difference
+
+`so2InterpFix` sends BOTH branches of the SO(2) clause through `so2Wrap` (the fixed code wraps only the
+long branch, so a short-branch result that IEEE rounding carries onto +π stays out of range: F61). -/
+
+/-- [EX] SO(2): over ℝ the repaired code equals the fixed code on in-bounds inputs -/
+theorem so2InterpFix_eq (a b t : ℝ) (ha : so2InB a = true) (hb : so2InB b = true)
+    (ht0 : 0 ≤ t) (ht1 : t ≤ 1) : so2InterpFix a b t = so2Interp a b t := by
+  rw [so2InB_iff] at ha hb; exact SpaceInterp.so2InterpFix_eq ha.1 ha.2 hb.1 hb.2 ht0 ht1
+
+example : so2InterpFix (3 : ℝ) (-3) (1 / 3) = so2Interp 3 (-3) (1 / 3) :=
+  so2InterpFix_eq _ _ _ three_inB.1 three_inB.2 (by norm_num) (by norm_num)
+example : so2InterpFix (0 : ℝ) 1 (1 / 3) = so2Interp 0 1 (1 / 3) :=
+  so2InterpFix_eq _ _ _ zero_inB one_inB (by norm_num) (by norm_num)
+
+/-- [EX] EVERY space (arbitrarily nested; Mobius and Klein included): over ℝ the repaired tree equals the
+fixed tree on well-typed in-bounds states.  Consequence: every [EX] theorem of this file about
+`interpolate` transfers verbatim to `interpolateFix61` (rewrite with this equation); the repair only
+changes what IEEE rounding does at +π.  (The compound clauses feed the SO(2) leaf only in-bounds values:
+so2 leaf, torus, sphere, Mobius `so2 u1 u2 t` in both branches, Klein `so2 v1 v2 t` in the cylinder branch.) -/
+theorem interp_fix61_eq (sp : Space ℝ) (a b : St ℝ) (t : ℝ)
+    (hwa : wellTyped sp a = true) (hwb : wellTyped sp b = true)
+    (hba : inBounds sp a = true) (hbb : inBounds sp b = true) (ht0 : 0 ≤ t) (ht1 : t ≤ 1) :
+    interpolateFix61 sp a b t = interpolate sp a b t :=
+  interpolateFix61_eq sp a b t hwa hwb hba hbb ht0 ht1
+
+-- [Klein, SE(3), Mobius] and the nested compound
+example : interpolateFix61 allSp allA allB (1 / 3) = interpolate allSp allA allB (1 / 3) :=
+  interp_fix61_eq _ _ _ _ allA_wt allB_wt allA_inB allB_inB (by norm_num) (by norm_num)
+example : interpolateFix61 nested nestedA nestedB (1 / 3) = interpolate nested nestedA nestedB (1 / 3) :=
+  interp_fix61_eq _ _ _ _ nestedA_wt nestedB_wt nestedA_inB nestedB_inB (by norm_num) (by norm_num)
+-- a transferred theorem: t = 1 of the repaired tree
+example : interpolateFix61 nested nestedA nestedB 1 = nestedB := by
+  rw [interp_fix61_eq _ _ _ _ nestedA_wt nestedB_wt nestedA_inB nestedB_inB (by norm_num) (by norm_num)]
+  exact interp_one _ _ _ nested_ok.1 nestedA_wt nestedB_wt nestedB_inB
+
+/-- [EX] one wrap suffices: `so2Wrap` maps ANY value of `[-3π, 3π)` into the bounds `[-π, π)` -/
+theorem so2_wrap_inrange_any (v : ℝ) (h1 : -3 * π ≤ v) (h2 : v < 3 * π) :
+    so2InB (so2Wrap v) = true := by
+  rw [so2InB_iff]; exact so2Wrap_inB h1 h2
+
+example : so2InB (so2Wrap (7 : ℝ)) = true :=
+  so2_wrap_inrange_any _ (by linarith [pi_pos]) (by linarith [pi_gt_three])
+
+/-- [EX] what the repair buys: the repaired SO(2) result is in bounds by `so2_wrap_inrange_any` and crude
+bounds on the pre-wrap value (`|a + diff t| ≤ 2π`) alone — no exactness of the short branch is used, so
+the argument survives a rounding error of the pre-wrap value (anything short of π) -/
+theorem so2_interp_fix_inrange_any (a b t : ℝ) (ha : so2InB a = true) (hb : so2InB b = true)
+    (ht0 : 0 ≤ t) (ht1 : t ≤ 1) : so2InB (so2InterpFix a b t) = true := by
+  rw [so2InB_iff] at *; exact so2InterpFix_inB ha.1 ha.2 hb.1 hb.2 ht0 ht1
+
+example : so2InB (so2InterpFix (3 : ℝ) (-3) (1 / 3)) = true :=
+  so2_interp_fix_inrange_any _ _ _ three_inB.1 three_inB.2 (by norm_num) (by norm_num)
+
+/-- [EX] discrete: the model rounds `from + (to - from) * t` with the EXACT integer difference
+(`to - from` in ℤ, as notes/C07-fix-F155.diff makes the code do; the unrepaired code overflows `int`
+when `|to - from| > INT_MAX`, F155) -/
+theorem disc_interp_exact_difference (a b : Int) (t : ℝ) :
+    discInterp a b t = ⌊(a : ℝ) + ((b - a : Int) : ℝ) * t + 1 / 2⌋ := discInterp_eq a b t
+
+/-- [EX] discrete: the result lies between the end points, for any integers (no overflow in the model) -/
+theorem disc_interp_between (a b : Int) (t : ℝ) (ht0 : 0 ≤ t) (ht1 : t ≤ 1) :
+    min a b ≤ discInterp a b t ∧ discInterp a b t ≤ max a b := discInterp_between a b ht0 ht1
+
+-- |to - from| = 4e9 > INT_MAX
+example : discInterp (-2000000000) 2000000000 (1 / 2 : ℝ) = 0 := by
+  rw [disc_interp_exact_difference, Int.floor_eq_iff]; constructor <;> norm_num
+example : min (-2000000000) 2000000000 ≤ discInterp (-2000000000) 2000000000 (1 / 4 : ℝ) ∧
+    discInterp (-2000000000) 2000000000 (1 / 4 : ℝ) ≤ max (-2000000000) 2000000000 :=
+  disc_interp_between _ _ _ (by norm_num) (by norm_num)
 
 /-! ## compound weights are irrelevant (zero-weight subspaces included)
 
